@@ -402,3 +402,5 @@ M('seed-C01-reset-only-complete-sources', ['C01'], Z, "                         
 M('seed-C02-reset-guard-balanced', ['C01', 'C07'], Z, "                        elif res and not balance:\n                            for s in sendervs:", "                        elif res and not balanced:\n                            for s in sendervs:", ['C01.R2', 'C07.R2'])
 M('seed-C07-prev_id-only-without-state', ['C02', 'C07'], Z, "                self.prev_id = min_recv_id\n                data         = {}", "                if state is None:\n                    self.prev_id = min_recv_id\n                data         = {}", ['C02.R2', 'C07.R4'])
 M('seed-C05-balanced-readiness-precedence', ['C04', 'C05'], Z, "                        out_do_send and (requested or ephemeral),", "                        out_do_send and requested or ephemeral,", ['C04.R2', 'C05.R1'])
+M('recv-D9-shape', ['C01'], Z, "                self.prev_id = max(self.prev_id, min_recv_id - 1)  # a newer id may have been adopted", "                pass  # a newer id may have been adopted", ['C01.R9'])
+M('recv-timeout-rewinds', ['C01', 'C02'], Z, "                self.prev_id = max(self.prev_id, min_recv_id - 1)  # a newer id may have been adopted", "                self.prev_id = min_recv_id - 2  # a newer id may have been adopted", ['C01.R9', 'C02.R2'])
